@@ -36,7 +36,8 @@ CORPUS = base.CORPUS
 
 SIG_EID = 'C16 / EID text altered within what EidField.i2m normalises away (query, fragment, missing path slash; primary block with stale or absent CRC, or security source) still decrypts and is delivered'
 SIG_IGNORED = 'C16 / confidentiality block whose BTSD the decoder cannot dissect is ignored: bundle delivered with the ciphertext as its data'
-PENDING_FINDINGS = [SIG_EID, SIG_IGNORED]
+# both are entered in known_findings.json: hits go through Check.fail and print KNOWN-FINDING
+PENDING_FINDINGS = []
 
 IVS = [b'Twelve121212', b'Twelve121213', b'Twelve121214']
 trace = base.trace
@@ -319,7 +320,7 @@ def replay_main(chk, path):
         chk.fail(signature=sig, what=info['what'], replay_obj=rep)
     chk.case(ident=('replay', path), nontrivial=True, sample=dict(replay=os.path.basename(path), cls=cls[0]))
     chk.obligation('replay:ran', True)
-    chk.finish(rule='replay of one stored input')
+    base.finish_keep_evidence(chk, rule='replay of one stored input')
 
 
 def main():
